@@ -205,6 +205,49 @@ func checkC22(c *Ctx) *report.Result {
 		}
 	}
 
+	// ---- power-on: the read before any FF00 write follows the same rules for the initial select byte
+	{
+		init0 := c.cellInt(it.StateOn(c.W.InitHeap), ctl, selPath)
+		iv, isc := constOf(init0)
+		if !isc {
+			r.Fail("undecided", "J-nibble", "power-on select byte", "", "initial value "+ai.ValueString(init0))
+		} else {
+			dirSel, btnSel := iv&0x10 == 0, iv&0x20 == 0
+			for _, fixDir := range []bool{true, false} {
+				var dS, bS ai.Sym
+				rd := c.evalDecoder(false, 0xFF00, 0xFF00, func(st *ai.State) {
+					st.SetCell(ctl, selPath, ai.NewConstInt(8, false, iv))
+					dS = c.symCell(st, ctl, dirPath)
+					bS = c.symCell(st, ctl, btnPath)
+					fixP, fixS := dirPath, dS
+					if !fixDir {
+						fixP, fixS = btnPath, bS
+					}
+					x := ai.NewSymInt(8, false, fixS)
+					for i := 0; i < 4; i++ {
+						x = ai.WithBit(x, i, true) // no key of this group held
+					}
+					st.SetCell(ctl, fixP, x)
+				}, nil)
+				res, _ := rd.Result.(*ai.Int)
+				ok := res != nil && res.Bits[7].K == ai.BOne && res.Bits[6].K == ai.BOne
+				otherSel, otherS := btnSel, bS
+				if !fixDir {
+					otherSel, otherS = dirSel, dS
+				}
+				for i := 0; ok && i < 4; i++ {
+					if otherSel {
+						ok = isSrcBit(res.Bits[i], otherS, i)
+					} else {
+						ok = res.Bits[i].K == ai.BOne
+					}
+				}
+				which := map[bool]string{true: "no direction held", false: "no button held"}[fixDir]
+				r.Ob("J-nibble", ok, "FF00 read before any write (power-on select byte), "+which, "", fmt.Sprintf("initial select byte %02X (directions selected %v, buttons selected %v): reads %s", iv, dirSel, btnSel, ai.ValueString(rd.Result)))
+			}
+		}
+	}
+
 	// ---- key event table
 	for _, k := range joypKeys {
 		for _, pressed := range []bool{true, false} {
